@@ -299,11 +299,20 @@ def run_driver(lines, pid, timeout=1800):
 # ------------------------------------------------------------------------------------------------
 # known findings
 
-def load_known():
+def load_known(pid=None):
+    """known_findings/Cxx.json files (one per property) + legacy known_findings.json"""
+    out = []
     p = os.path.join(VERIF, 'known_findings.json')
-    if not os.path.exists(p):
-        return []
-    return json.load(open(p))['findings']
+    if os.path.exists(p):
+        out += json.load(open(p)).get('findings', [])
+    d = os.path.join(VERIF, 'known_findings')
+    if os.path.isdir(d):
+        for fn in sorted(os.listdir(d)):
+            if fn.endswith('.json'):
+                out += json.load(open(os.path.join(d, fn))).get('findings', [])
+    if pid:
+        out = [k for k in out if k['property'] == pid]
+    return out
 
 
 # ------------------------------------------------------------------------------------------------
@@ -491,7 +500,7 @@ def run_check(pid, tier, seed):
             broken.append(msg)
 
     # 5. known findings: replay each listed witness
-    known = [k for k in load_known() if k['property'] == pid]
+    known = load_known(pid)
     known_sigs = {}
     exit_code = 0
     printed = []
